@@ -914,6 +914,24 @@ func runZeroOff(c *Ctx) {
 				return
 			}
 			facts := spec.PassedList(f, r)
+			// data dependence: a deadline / size limit computed from a limit field is a rejection armed with that value;
+			// with the value 0 it fires at once, so the call itself needs limit > 0 (closures inherit the facts common to
+			// all their call sites)
+			if what == "Conn.SetReadDeadline" || what == "Conn.SetReadLimit" {
+				for _, a := range call.Args {
+					for _, v := range mentions(info, a) {
+						n["arg:"+v.Name()]++
+						has := false
+						for _, fb := range facts {
+							if fb == "pos:"+v.Name() {
+								has = true
+							}
+						}
+						c.Check(has, fmt.Sprintf("zero-off/%s/%s/%s.arg#%d", f.Name, v.Name(), what, n["arg:"+v.Name()]), call.Pos(), what+" is armed with limits."+v.Name()+" only where limits."+v.Name()+" > 0 holds",
+							what+" is armed with limits."+v.Name()+" on a path (or from a call site of this closure) where limits."+v.Name()+" > 0 was not tested: with the limit set to 0 ('disabled') the deadline/limit is already exceeded and the connection is dropped")
+					}
+				}
+			}
 			for _, fld := range enclosingLimitConds(p, f, call, func(info *types.Info, e ast.Expr) []string {
 				var out []string
 				for _, v := range mentions(info, e) {
